@@ -566,10 +566,10 @@ func c14b(c *Ctx) {
 		return
 	}
 	var stepW, termW *writeSite
-	ws := writeSites(fn)
+	ws := c.sitesOf(fn)
 	for i := range ws {
-		if ws[i].isFmt && ws[i].format == "\t%s\n" && len(ws[i].args) == 1 {
-			if s, isC := strConst(ws[i].args[0]); isC && s == "step_end" {
+		if ws[i].isFmt && ws[i].format == "\t%s\n" && len(ws[i].argT) == 1 {
+			if s, isC := strConst(ws[i].argV(0)); isC && s == "step_end" {
 				termW = &ws[i]
 			} else {
 				stepW = &ws[i]
@@ -580,7 +580,7 @@ func c14b(c *Ctx) {
 		c.Bad("movement/writes", c.W.FuncPos(fn), "cannot find the step write and the terminator write")
 		return
 	}
-	step := c.term(fn, stepW.args[0])
+	step := stepW.argT[0]
 	c.Check(strings.HasPrefix(step, "$1.MovementCommands[phi(") && strings.HasSuffix(step, "+1].Literal"), "movement/steps-in-order", c.W.Pos(stepW.call.Pos()), "every step is written in order", "steps written are "+pretty(step)+", expected every MovementCommands[i].Literal in order")
 	// returns
 	nIn, nOut := 0, 0
@@ -608,7 +608,7 @@ func c14c(c *Ctx) {
 	if fn == nil {
 		return
 	}
-	ws := writeSites(fn)
+	ws := c.sitesOf(fn)
 	if len(ws) == 0 {
 		c.Bad("mart/writes", c.W.FuncPos(fn), "no writes")
 		return
@@ -616,8 +616,8 @@ func c14c(c *Ctx) {
 	c.Check(ws[0].konst && ws[0].format == "\t.align 2\n" && instrDominatesAll(ws[0].call.(ssa.Instruction), ws[1:]), "mart/align-first", c.W.Pos(ws[0].call.Pos()), "'.align 2' is written first", "'.align 2' is not the first thing written")
 	var itemW, termW *writeSite
 	for i := range ws {
-		if ws[i].isFmt && ws[i].format == "\t.2byte %s\n" && len(ws[i].args) == 1 {
-			if s, isC := strConst(ws[i].args[0]); isC && s == "ITEM_NONE" {
+		if ws[i].isFmt && ws[i].format == "\t.2byte %s\n" && len(ws[i].argT) == 1 {
+			if s, isC := strConst(ws[i].argV(0)); isC && s == "ITEM_NONE" {
 				termW = &ws[i]
 			} else {
 				itemW = &ws[i]
@@ -628,12 +628,12 @@ func c14c(c *Ctx) {
 		c.Bad("mart/item-and-terminator", c.W.FuncPos(fn), "cannot find the item write and the ITEM_NONE terminator write")
 		return
 	}
-	item := c.term(fn, itemW.args[0])
+	item := itemW.argT[0]
 	c.Check(strings.HasPrefix(item, "$1.Items[phi(") && strings.HasSuffix(item, "+1]"), "mart/items-in-order", c.W.Pos(itemW.call.Pos()), "items are written in order", "item written is "+pretty(item)+", expected Items[i] over the range")
-	must := c.mustLits(fn, itemW.call.Block())
+	must := siteMust(*itemW)
 	c.Check(hasLit(must, "-("+item+` == "ITEM_NONE")`), "mart/stop-tested-on-written-value", c.W.Pos(itemW.call.Pos()), "an item is written only after the very value to be written was tested not to be ITEM_NONE", "the ITEM_NONE test guarding the write is not made on the value that is written ("+pretty(item)+"): a terminator spelled through a constant would be missed; guards: "+fmt.Sprint(must))
 	// the loop exits (break) under +(item == ITEM_NONE): terminator reachable, item write not
-	c.Check(!isInLoopRegion(termW.call.Block()) && c.PC(fn).At(termW.call.Block()).String() != "" && dnfEquiv(dropAtoms(c.PC(fn).At(termW.call.Block()), func(a string) bool { return true }), mkDNF([]string{})), "mart/one-terminator", c.W.Pos(termW.call.Pos()), "one terminator after the loop, unconditionally", "the ITEM_NONE terminator is not written exactly once, unconditionally, after the loop")
+	c.Check(!isInLoopRegion(termW.call.Block()) && termW.cond.String() != "" && dnfEquiv(dropAtoms(termW.cond, func(a string) bool { return true }), mkDNF([]string{})), "mart/one-terminator", c.W.Pos(termW.call.Pos()), "one terminator after the loop, unconditionally", "the ITEM_NONE terminator is not written exactly once, unconditionally, after the loop")
 	_, again := existsPath(pathQuery{from: after(termW.call.(ssa.Instruction)), target: func(in ssa.Instruction) bool {
 		ci, ok := in.(ssa.CallInstruction)
 		return ok && strings.HasPrefix(calleeName(ci), "(*strings.Builder).Write")
